@@ -63,10 +63,10 @@ func (w *world) add(s wspec) error {
 func (w *world) judge() {
 	log := vrt.E.Log
 	type inc struct {
-		name         string
-		order        int
-		start, ret   int
-		cancel       int
+		name       string
+		order      int
+		start, ret int
+		cancel     int
 	}
 	var incs []*inc
 	byCtx := map[int]*inc{}
@@ -276,8 +276,8 @@ func main() {
 	cli.Main(&cli.Property{
 		ID: "C20", Level: "model_checking", Scenarios: scenarios(),
 		QuickBound: 3, ThoroughBound: 4, Cache: true, Delay: true, QuickSecs: 45, ThoroughSecs: 900,
-		Rule: "every interleaving with at most b deviations (delay bounding; the order in which Start walks the worker map is an owned choice) of worker goroutines, BackgroundWorker, Start, Run, Shutdown and ShutdownAndWait callers on the real daemon with virtual contexts; oracle on the recorded log of worker start/return and context-cancel events; distinct = distinct (outcome, observation log)",
+		Rule:        "every interleaving with at most b deviations (delay bounding; the order in which Start walks the worker map is an owned choice) of worker goroutines, BackgroundWorker, Start, Run, Shutdown and ShutdownAndWait callers on the real daemon with virtual contexts; oracle on the recorded log of worker start/return and context-cancel events; distinct = distinct (outcome, observation log)",
 		Assumptions: []string{"vcontext models context.WithCancel faithfully (cancellation closes Done through a visible operation)", "cancelling the context of a worker that has already returned is unobservable and not judged"},
-		NotReached: []string{"more than 4 workers", "worker panics"},
+		NotReached:  []string{"more than 4 workers", "worker panics"},
 	})
 }
